@@ -1,6 +1,8 @@
 import FindVerif.Driver.Lines
 import FindVerif.Spec.Grammar
 import FindVerif.Spec.Scheme.Read
+import FindVerif.Spec.Vocab
+import FindVerif.Spec.Options
 /-
   Property predicates evaluated on the IMPLEMENTATION's observation (independent of whether the
   model agrees with it): `none` = holds, `some reason` = the implementation fails the property
@@ -101,10 +103,176 @@ def checkC19 (req : List String) (obs : String) : Option String :=
 
 def stripAnnot (req : List String) : List String := req.filter (fun p => !p.startsWith "#")
 
-def propCheck (prop : String) (req : List String) (obs : String) : Option String :=
-  match prop, req with
-  | "C01", "P" :: hx :: _ => (textOfHex hx).bind fun input => checkC01 input obs
-  | "C19", _ => checkC19 (stripAnnot req) obs
+/-- `#key=value` annotations of a request. -/
+def annot (req : List String) (key : String) : Option String :=
+  req.findSome? fun p =>
+    if p.startsWith ("#" ++ key ++ "=") then some ((p.drop (key.length + 2)).toString) else none
+
+def annotText (req : List String) (key : String) : Option Text := (annot req key).bind textOfHex
+
+def annotTexts (req : List String) (key : String) : Option (List Text) :=
+  match annot req key with
+  | none => none
+  | some "" => some []
+  | some v => (v.splitOn ",").mapM textOfHex
+
+/-! ### C05 / C07 / C08 / C14: one primary in a known context -/
+
+/-- Tokens of the request: the primary (from the spec vocabulary) placed in the annotated context. -/
+def ctxTokens (ctx : String) (t : Token) : Option (List Token) :=
+  let tt := Token.test .true_
+  let ff := Token.test .false_
+  match ctx with
+  | "alone" => some [t]
+  | "after" => some [tt, t]
+  | "before" => some [t, ff]
+  | "paren" => some [.lparen, t, .rparen]
+  | "not" => some [.not, t]
+  | "mid" => some [tt, t, .or, ff]
+  | "list" => some [ff, .comma, t, tt]
+  | _ => none
+
+/-- Expected observation class for `keyword args` in a context, from the spec alone. -/
+inductive Want where
+  | result (o : RunOptions) (e : Expr)
+  | reject
+  | nothing
+
+def wantPrimary (req : List String) : Want :=
+  match annotText req "kw", annotTexts req "args", annot req "ctx" with
+  | some kw, some args, some ctx =>
+    match Spec.expectedToken (String.ofList kw) args with
+    | .unknown => .nothing
+    | .reject => .reject
+    | .token t =>
+      match ctxTokens ctx t with
+      | none => .nothing
+      | some ts =>
+        match climb .release (Spec.expressionOf ts) with
+        | .ok e _ => .result (Spec.optionsOf ts) e
+        | _ => .nothing
+  | _, _, _ => .nothing
+
+def checkPrimary (req : List String) (obs : String) : Option String :=
+  match wantPrimary req, decodeParse (splitBar obs).1 with
+  | .nothing, .panic m => some ("panic " ++ m)
+  | .nothing, _ => none
+  | .reject, .err _ _ _ _ _ => none
+  | .reject, .ok _ e => some s!"argument-outside-language-accepted got={(exprSx e).print}"
+  | .reject, .panic m => some ("panic " ++ m)
+  | .reject, .other s => some ("unreadable-observation " ++ s)
+  | .result o e, .ok o' e' =>
+    if e = e' && o = o' then none
+    else some s!"wrong-node expected={optionsStr o} {(exprSx e).print} got={optionsStr o'} {(exprSx e').print}"
+  | .result _ e, .err v _ _ _ _ => some s!"member-of-language-rejected ({v}) expected={(exprSx e).print}"
+  | .result _ _, .panic m => some ("panic " ++ m)
+  | .result _ _, .other s => some ("unreadable-observation " ++ s)
+
+/-! ### C18: error messages -/
+
+def isInfix (a b : Text) : Bool :=
+  (List.range (b.length + 1)).any fun k => isPrefix a (b.drop k)
+
+/-- Segments of a message between backquotes. -/
+def backquoted : Text → List Text
+  | [] => []
+  | c :: cs =>
+    if c = '`' then
+      let seg := cs.takeWhile (· ≠ '`')
+      match cs.dropWhile (· ≠ '`') with
+      | _ :: rest => seg :: backquoted' rest rest.length
+      | [] => []
+    else backquoted cs
+where
+  backquoted' (t : Text) : Nat → List Text
+    | 0 => []
+    | n + 1 =>
+      match t with
+      | [] => []
+      | c :: cs =>
+        if c = '`' then
+          let seg := cs.takeWhile (· ≠ '`')
+          match cs.dropWhile (· ≠ '`') with
+          | _ :: rest => seg :: backquoted' rest n
+          | [] => []
+        else backquoted' cs n
+
+def checkC18 (req : List String) (obs : String) : Option String :=
+  match req with
+  | "P" :: hx :: _ =>
+    match textOfHex hx, annot req "kind", annotText req "word" with
+    | some input, some kind, some word =>
+      match decodeParse obs with
+      | .err _ _ _ _ text =>
+        let quoted := backquoted text
+        if text.isEmpty then some "empty-message"
+        else if !(quoted.all fun q => isInfix q input) then some "message-quotes-text-not-in-input"
+        else if !(quoted.any (· = word)) then some s!"message-does-not-quote-the-word"
+        else if kind = "unknown" then none
+        else match annotText req "kw" with
+          | some kw => if quoted.any (· = kw) then none else some "message-does-not-name-the-keyword"
+          | none => none
+      | .ok _ e => some s!"invalid-input-accepted got={(exprSx e).print}"
+      | .panic m => some ("panic " ++ m)
+      | .other s => some ("unreadable-observation " ++ s)
+    | _, _, _ => none
+  | _ => none
+
+/-! ### C03: outcome class -/
+
+def checkC03 (obs : String) : Option String :=
+  if (obs.splitOn " ").any (· = "PANIC") then some ("panic: " ++ obs.take 200)
+  else if obs.startsWith "ABORT" || obs.startsWith "TIMEOUT" then some obs
+  else
+    -- rendering an error as text always succeeds and is never empty
+    match decodeParse (splitBar obs).1 with
+    | .err _ _ _ _ text => if text.isEmpty then some "empty-error-text" else none
+    | _ => none
+
+/-! ### groups: requests that must give identical observations (C06, C13, C15) -/
+
+structure DState where
+  groups : List (String × String) := []
+
+def groupCheck (prop : String) (st : DState) (req : List String) (obs : String) : DState × Option String :=
+  match annot req "grp" with
+  | none => (st, none)
+  | some g =>
+    let key := match prop with
+      | "C13" => " ".intercalate (((splitBar obs).1.splitOn " ").drop 3)
+      | _ => (splitBar obs).1
+    match st.groups.find? (fun kv => kv.1 = g) with
+    | none => ({ st with groups := (g, key) :: st.groups.take 64 }, none)
+    | some (_, first) =>
+      if first = key then (st, none)
+      else (st, some s!"equivalent-inputs-differ first=[{first.take 300}] this=[{key.take 300}]")
+
+/-- C13: the options carried by the result are the annotated ones. -/
+def checkC13 (req : List String) (obs : String) : Option String :=
+  match annot req "opts", decodeParse (splitBar obs).1 with
+  | some want, .ok o _ =>
+    if want = "any" || optionsStr o = want.replace "_" " " then none
+    else some s!"wrong-options want={want} got={optionsStr o}"
+  | some _, .panic m => some ("panic " ++ m)
+  | some want, .err v _ _ _ _ => if want = "any" then none else some s!"rejected ({v})"
   | _, _ => none
+
+def propCheck (prop : String) (st : DState) (req : List String) (obs : String) : DState × Option String :=
+  match prop, req with
+  | "C01", "P" :: hx :: _ => (st, (textOfHex hx).bind fun input => checkC01 input obs)
+  | "C19", _ => (st, checkC19 (stripAnnot req) obs)
+  | "C05", _ => (st, checkPrimary req obs)
+  | "C07", _ => (st, checkPrimary req obs)
+  | "C08", _ => (st, checkPrimary req obs)
+  | "C14", _ => (st, checkPrimary req obs)
+  | "C18", _ => (st, checkC18 req obs)
+  | "C03", _ => (st, checkC03 obs)
+  | "C17", _ => (st, checkC03 obs)
+  | "C06", _ => groupCheck prop st req obs
+  | "C13", _ =>
+    match checkC13 req obs with
+    | some why => (st, some why)
+    | none => groupCheck prop st req obs
+  | _, _ => (st, none)
 
 end FV
